@@ -20,6 +20,7 @@ DYNAMIC = 'dynamic'
 RAISES = 'raises'
 MAX_STATES = 512
 MAX_UNROLL = 300
+MAX_STEPS = 60000
 
 
 class _Dyn(Exception):
@@ -97,6 +98,7 @@ class StackFx:
         if key in self._memo:
             return self._memo[key]
         fi = self.w.handlers[hname]
+        self._budget = MAX_STEPS
         try:
             outs = self._run_handler(fi, State(ops=tuple(operands)), 0)
             ends = [s for k, s in outs if k in ('fall', 'return')]
@@ -552,6 +554,9 @@ class StackFx:
         return None
 
     def _stmt(self, s, st: State, cx):
+        self._budget -= 1
+        if self._budget < 0:
+            raise _Dyn()            # path explosion: the effect is not a simple function of the operands
         st = st.copy()
         if isinstance(s, ast.Expr):
             if isinstance(s.value, ast.Constant):
